@@ -128,6 +128,11 @@ func init() {
 				}
 				ct(c, &c17Text{Text: t[:len(t)-8], Origin: t, Class: "no-checksum"})
 				ct(c, &c17Text{Text: strings.ToUpper(t), Origin: t, Class: "upper"})
+				for i := 0; i < len(t); i++ { // the case of one letter, scheme name included
+					if f := flipCase(t[i]); f != t[i] {
+						ct(c, &c17Text{Text: t[:i] + string(f) + t[i+1:], Origin: t, Class: "case-flip"})
+					}
+				}
 			}
 		}
 		c.Phase("long-payloads") // texts of several hundred to several thousand characters: round trip, specification text, and substitutions at sampled positions over the whole length
@@ -249,6 +254,21 @@ func c17JudgeRT(c *mon.Ctx, in *c17RT) {
 			}
 		}
 	}
+	// a decoded value is an ordinary value: edited in place and encoded again it
+	// gives the text of its present content
+	if c.Try("bscript.DecodeBIP276", func() { got, err = bscript.DecodeBIP276(text) }) && err == nil && got != nil && len(got.Data) > 0 {
+		for i := range got.Data {
+			got.Data[i] ^= byte(0x5a + i)
+		}
+		fresh := bscript.BIP276{Prefix: got.Prefix, Version: got.Version, Network: got.Network, Data: append([]byte{}, got.Data...)}
+		var a, b string
+		if c.Try("bscript.EncodeBIP276", func() { a, b = bscript.EncodeBIP276(*got), bscript.EncodeBIP276(fresh) }) {
+			c.Count("rt:decoded-value-edited-in-place-and-encoded")
+			if a != b {
+				c.Violationf("C17:encode-of-edited-decoded-value", "a decoded value whose Data was edited in place encodes to %q, an equal freshly built value to %q", a, b)
+			}
+		}
+	}
 	// the decoder must read the specification text
 	if c.Try("bscript.DecodeBIP276", func() { got, err = bscript.DecodeBIP276(ref) }) {
 		if err != nil {
@@ -265,10 +285,21 @@ func c17JudgeRT(c *mon.Ctx, in *c17RT) {
 	})
 }
 
+func flipCase(b byte) byte {
+	switch {
+	case b >= 'a' && b <= 'z':
+		return b - 32
+	case b >= 'A' && b <= 'Z':
+		return b + 32
+	}
+	return b
+}
+
 // ValidateAddress(s) <=> DecodeBIP276(s) succeeds, for bitcoin-script: strings.
 func c17Validate(c *mon.Ctx, text string) {
-	if !strings.HasPrefix(text, "bitcoin-script:") {
-		return
+	exact := strings.HasPrefix(text, "bitcoin-script:")
+	if !exact && !strings.ContainsAny(text, ":-") {
+		return // may be read as a Base58Check address (C15)
 	}
 	var ok bool
 	var derr error
@@ -279,6 +310,14 @@ func c17Validate(c *mon.Ctx, text string) {
 		return
 	}
 	c.Count("validate:compared")
+	if !exact {
+		// not a bitcoin-script: string and, holding ':' or '-', not Base58 either: never valid
+		c.Count("validate:compared:scheme-differs")
+		if ok {
+			c.Violationf("C17:validate-accepts-other-scheme", "ValidateAddress(%q)=true; the text does not start with bitcoin-script: (DecodeBIP276 error=%v) and is not Base58", text, derr)
+		}
+		return
+	}
 	if ok != (derr == nil) {
 		c.Violationf("C17:validate-vs-decode", "ValidateAddress(%q)=%v but DecodeBIP276 error=%v", text, ok, derr)
 	}
